@@ -11,3 +11,111 @@ Proof.
   - exact (fun H => H).
   - exact (fun H => H).
 Qed.
+
+(** ** Further laws of the specifications (added after the main development).
+    They say that the specification objects the property theorems refer to have the shape
+    the ECMAScript text gives them, so a property proved against them means what it reads as. *)
+From Coq Require Import Floats.SpecFloat.
+From JL Require Import Proofs.Floats.
+
+(** C08: strict equality is symmetric *)
+Lemma strict_eq_sym a b : es_strict_eq a b = es_strict_eq b a.
+Proof.
+  destruct a as [|x|x|x|x|x], b as [|y|y|y|y|y]; cbn; try reflexivity.
+  - destruct x, y; reflexivity.
+  - apply f64_eqb_sym.
+  - apply str_eqb_sym.
+Qed.
+
+(** C07: abstract equality on primitives, and on all values, is symmetric *)
+Lemma prim_eq_sym p q : prim_eq p q = prim_eq q p.
+Proof.
+  unfold prim_eq.
+  destruct p as [|x|x|x|x|x], q as [|y|y|y|y|y]; try reflexivity;
+    try apply str_eqb_sym;
+    repeat match goal with
+    | |- context [match ?e with Some _ => _ | None => _ end] =>
+        lazymatch e with
+        | es_to_number _ => destruct e
+        | es_str_to_number _ => destruct e
+        end
+    end; try reflexivity; apply f64_eqb_sym.
+Qed.
+
+Lemma abstract_eq_sym a b : es_eq a b = es_eq b a.
+Proof.
+  unfold es_eq. rewrite (andb_comm (is_container a)).
+  destruct (is_container b && is_container a); [reflexivity|apply prim_eq_sym].
+Qed.
+
+(** C09: a < b implies a <= b; a < b and b < a never both hold; NaN makes every comparison false *)
+Lemma lt_implies_le a b : es_lt a b = true -> es_le a b = true.
+Proof. unfold es_lt, es_le. destruct (es_compare a b) as [[]|]; congruence. Qed.
+
+Lemma compare_none_all_false a b :
+  es_compare a b = None -> es_lt a b = false /\ es_le a b = false.
+Proof. unfold es_lt, es_le. intros ->. split; reflexivity. Qed.
+
+Lemma le_is_lt_or_eqcmp a b :
+  es_le a b = es_lt a b || match es_compare a b with Some Eq => true | _ => false end.
+Proof. unfold es_lt, es_le. destruct (es_compare a b) as [[]|]; reflexivity. Qed.
+
+(** C06: truthiness depends on a number only through its float value;
+    every object and every non-empty array or string is truthy *)
+Lemma truthy_obj m : truthy_spec (Obj m) = true.
+Proof. reflexivity. Qed.
+Lemma truthy_arr_nonempty x l : truthy_spec (Arr (x :: l)) = true.
+Proof. reflexivity. Qed.
+Lemma truthy_str_nonempty c s : truthy_spec (Str (c :: s)) = true.
+Proof. reflexivity. Qed.
+Lemma truthy_num_nan n : as_f64 n = S754_nan -> truthy_spec (Num n) = true.
+Proof. cbn. intros ->. reflexivity. Qed.
+
+(** C03: the documented counts are never empty for any operator, and 2 operands are
+    documented for every binary-looking operator *)
+Lemma documented_inhabited o : exists n, documented o n = true.
+Proof. destruct o; first [exists 2%nat; reflexivity | exists 1%nat; reflexivity | exists 3%nat; reflexivity | exists 0%nat; reflexivity]. Qed.
+
+(** C09: the comparison is antisymmetric: swapping the operands reverses the outcome,
+    so a < b and b < a never hold together and a <= b, b <= a together mean "compare equal" *)
+Lemma str_order_total' x y : negb (str_ltb y x) = str_ltb x y || str_eqb x y.
+Proof.
+  revert y. induction x as [|a x IH]; intros [|b y]; cbn; try reflexivity.
+  destruct (N.ltb_spec a b), (N.ltb_spec b a), (N.eqb_spec a b), (N.eqb_spec b a); subst; try lia; try reflexivity.
+  apply IH.
+Qed.
+
+Lemma str_cmp_flip x y :
+  (if str_ltb y x then Lt else if str_eqb y x then Eq else Gt) =
+  CompOpp (if str_ltb x y then Lt else if str_eqb x y then Eq else Gt).
+Proof.
+  pose proof (str_order_total' x y) as H1. pose proof (str_order_total' y x) as H2.
+  rewrite (str_eqb_sym y x) in *.
+  destruct (str_ltb x y), (str_ltb y x), (str_eqb x y) eqn:E; cbn in *; try discriminate; try reflexivity.
+Qed.
+
+Lemma es_compare_flip a b : es_compare b a = option_map CompOpp (es_compare a b).
+Proof.
+  unfold es_compare.
+  destruct (to_primitive_spec a) as [|x|x|x|x|x], (to_primitive_spec b) as [|y|y|y|y|y];
+    cbn [es_to_number option_map];
+    try (cbn; f_equal; apply str_cmp_flip);
+    repeat match goal with
+    | |- context [es_str_to_number ?s] => destruct (es_str_to_number s)
+    end; cbn [option_map]; try reflexivity; try apply f64_compare_sym.
+Qed.
+
+Lemma lt_asym a b : es_lt a b = true -> es_lt b a = false.
+Proof. unfold es_lt. rewrite (es_compare_flip a b). destruct (es_compare a b) as [[]|]; cbn; congruence. Qed.
+
+Lemma gt_is_flipped_lt a b :
+  es_lt b a = match es_compare a b with Some Gt => true | _ => false end.
+Proof. unfold es_lt. rewrite (es_compare_flip a b). destruct (es_compare a b) as [[]|]; reflexivity. Qed.
+
+Lemma le_le_compare_eq a b :
+  es_le a b = true -> es_le b a = true -> es_compare a b = Some Eq.
+Proof. unfold es_le. rewrite (es_compare_flip a b). destruct (es_compare a b) as [[]|]; cbn; congruence. Qed.
+
+Print Assumptions es_compare_flip.
+Print Assumptions abstract_eq_sym.
+Print Assumptions strict_eq_sym.
